@@ -287,7 +287,7 @@ type Obs struct {
 	HasDef   bool              `json:"hasDef"`
 	Def      Cps               `json:"def"`
 	TypeDef  bool              `json:"typeHasDef"`
-	Probes   []ProbeObs        `json:"probes"`
+	Passes   [][]ProbeObs      `json:"passes"` // one list per pass, each in the order of the lexemes
 	Yang     map[string]string `json:"yang,omitempty"`
 }
 
@@ -343,16 +343,65 @@ func validate(t schema.Type, path []string, v string) (err error, panicked strin
 	return t.Validate(vctx{}, path, v), ""
 }
 
+// kept is what one Validate call returned, inspected only after the whole pass.
+type kept struct {
+	err error
+	pan string
+}
+
+func inspect(k kept, vpath, leafPath []string) ProbeObs {
+	p := ProbeObs{Ok: k.err == nil && k.pan == "", Pc: "none"}
+	if k.pan != "" {
+		p.Err = "panic: " + ascii(k.pan)
+		p.Pc = "other"
+	} else if k.err != nil {
+		p.Err = ascii(k.err.Error())
+		if len(p.Err) > 200 {
+			p.Err = p.Err[:200]
+		}
+		p.Pc = "other"
+		if f, ok := k.err.(mgmterror.Formattable); ok {
+			p.Msg, p.Tag = ascii(f.GetMessage()), ascii(f.GetAppTag())
+			switch f.GetPath() {
+			case pathutil.Pathstr(vpath):
+				p.Pc = "value"
+			case pathutil.Pathstr(leafPath):
+				p.Pc = "leaf"
+			}
+			p.Path = ascii(f.GetPath())
+		}
+	}
+	return p
+}
+
+func validateTree(ms schema.ModelSet, vpath []string) (err error, panicked string) {
+	defer func() {
+		if r := recover(); r != nil {
+			panicked = fmt.Sprint(r)
+		}
+	}()
+	return ms.Validate(vctx{}, []string{}, vpath), ""
+}
+
 // Observe compiles the group of chains as one module set and validates, for
 // every chain, its lexemes against the type of its own leaf.
+//
+// The outcome of Validate(type, path, value) is a function of its arguments
+// only.  Every lexeme is therefore validated at a path of its own, a whole
+// pass is run keeping every returned error, and the kept errors are inspected
+// only after the pass: pass 1 calls leaf.Type().Validate in the given order,
+// pass 2 calls ModelSet.Validate with the full path in reverse order.  Module
+// sets with identities are compiled several times (the compiler walks the
+// identities in map order) and every compilation is probed.  Each pass is
+// reported in the order of the lexemes.
 func Observe(cs []Chain, lexemes [][]Cps, keepYang bool) []Obs {
 	out := make([]Obs, len(cs))
 	for i := range out {
-		out[i] = Obs{Def: Cps{}, Probes: []ProbeObs{}}
+		out[i] = Obs{Def: Cps{}, Passes: [][]ProbeObs{}}
 	}
 	fail := func(cerr, pan string) []Obs {
 		for i := range out {
-			out[i].Cerr, out[i].Panic = cerr, pan
+			out[i].Compiled, out[i].Cerr, out[i].Panic, out[i].Passes = false, cerr, pan, [][]ProbeObs{}
 		}
 		return out
 	}
@@ -362,63 +411,73 @@ func Observe(cs []Chain, lexemes [][]Cps, keepYang bool) []Obs {
 			out[i].Yang = mods
 		}
 	}
-	ms, err, pan := compileMods(mods)
-	if pan != "" {
-		return fail("panic", ascii(pan))
-	}
-	if err != nil {
-		cerr := ascii(err.Error())
-		if len(cerr) > 300 {
-			cerr = cerr[:300]
+	repeats := 1
+	for _, c := range cs {
+		if len(c.Idents) > 0 {
+			repeats = 4
 		}
-		return fail(cerr, "")
 	}
-	leaves := make([]schema.Leaf, len(cs))
-	for i, c := range cs {
-		cn, ln := ContainerOf(c.Mod), fmt.Sprintf("x%d", i+1)
-		cont := ms.Child(cn)
-		if cont == nil || cont.Child(ln) == nil {
-			return fail(fmt.Sprintf("leaf /%s/%s not found in the compiled schema", cn, ln), "")
+	for rep := 0; rep < repeats; rep++ {
+		ms, err, pan := compileMods(mods)
+		if pan != "" {
+			return fail("panic", ascii(pan))
 		}
-		leaf, ok := cont.Child(ln).(schema.Leaf)
-		if !ok {
-			return fail(fmt.Sprintf("/%s/%s is not a leaf", cn, ln), "")
-		}
-		leaves[i] = leaf
-	}
-	for i, c := range cs {
-		o, leaf := &out[i], leaves[i]
-		o.Compiled = true
-		d, has := leaf.Default()
-		o.HasDef, o.Def = has, ToCps(d)
-		_, o.TypeDef = leaf.Type().Default()
-		leafPath := []string{ContainerOf(c.Mod), fmt.Sprintf("x%d", i+1)}
-		for _, lx := range lexemes[i] {
-			v := lx.String()
-			vpath := append(append([]string{}, leafPath...), v)
-			verr, vp := validate(leaf.Type(), vpath, v)
-			p := ProbeObs{Ok: verr == nil && vp == "", Pc: "none"}
-			if vp != "" {
-				p.Err = "panic: " + ascii(vp)
-				p.Pc = "other"
-			} else if verr != nil {
-				p.Err = ascii(verr.Error())
-				if len(p.Err) > 200 {
-					p.Err = p.Err[:200]
-				}
-				p.Pc = "other"
-				if f, ok := verr.(mgmterror.Formattable); ok {
-					p.Msg, p.Tag = ascii(f.GetMessage()), ascii(f.GetAppTag())
-					switch f.GetPath() {
-					case pathutil.Pathstr(vpath):
-						p.Pc = "value"
-					case pathutil.Pathstr(leafPath):
-						p.Pc = "leaf"
-					}
-					p.Path = ascii(f.GetPath())
-				}
+		if err != nil {
+			cerr := ascii(err.Error())
+			if len(cerr) > 300 {
+				cerr = cerr[:300]
 			}
-			o.Probes = append(o.Probes, p)
+			if rep > 0 {
+				cerr = "repeated compilation of the same modules gave a different verdict: " + cerr
+			}
+			return fail(cerr, "")
+		}
+		leaves := make([]schema.Leaf, len(cs))
+		for i, c := range cs {
+			cn, ln := ContainerOf(c.Mod), fmt.Sprintf("x%d", i+1)
+			cont := ms.Child(cn)
+			if cont == nil || cont.Child(ln) == nil {
+				return fail(fmt.Sprintf("leaf /%s/%s not found in the compiled schema", cn, ln), "")
+			}
+			leaf, ok := cont.Child(ln).(schema.Leaf)
+			if !ok {
+				return fail(fmt.Sprintf("/%s/%s is not a leaf", cn, ln), "")
+			}
+			leaves[i] = leaf
+		}
+		for i, c := range cs {
+			o, leaf := &out[i], leaves[i]
+			d, has := leaf.Default()
+			if rep == 0 {
+				o.Compiled = true
+				o.HasDef, o.Def = has, ToCps(d)
+				_, o.TypeDef = leaf.Type().Default()
+			} else if has != o.HasDef || d != o.Def.String() {
+				return fail("repeated compilation of the same modules gave a different default", "")
+			}
+			leafPath := []string{ContainerOf(c.Mod), fmt.Sprintf("x%d", i+1)}
+			n := len(lexemes[i])
+			vpaths := make([][]string, n)
+			for k, lx := range lexemes[i] {
+				vpaths[k] = append(append([]string{}, leafPath...), lx.String())
+			}
+			held := make([]kept, n)
+			for k := 0; k < n; k++ {
+				held[k].err, held[k].pan = validate(leaf.Type(), vpaths[k], vpaths[k][2])
+			}
+			pass := make([]ProbeObs, n)
+			for k := 0; k < n; k++ {
+				pass[k] = inspect(held[k], vpaths[k], leafPath)
+			}
+			o.Passes = append(o.Passes, pass)
+			for k := n - 1; k >= 0; k-- {
+				held[k].err, held[k].pan = validateTree(ms, vpaths[k])
+			}
+			pass = make([]ProbeObs, n)
+			for k := 0; k < n; k++ {
+				pass[k] = inspect(held[k], vpaths[k], leafPath)
+			}
+			o.Passes = append(o.Passes, pass)
 		}
 	}
 	return out
